@@ -75,6 +75,17 @@ func (g *G) tryIntrinsic(fn *ssa.Function, args []Value) (Value, bool) {
 		g.m.res.Intrinsics[name] = true
 		return h(g, fn, args), true
 	}
+	if fn.Name() == "verifPoint" && fn.Pkg != nil && strings.HasPrefix(fn.Pkg.Pkg.Path(), g.m.ld.ModulePath()) {
+		// verif-tagged schedule point in the code under test
+		label := "verif"
+		if s, ok := args[0].(*StrV); ok {
+			if cs, ok := concreteString(s); ok {
+				label = "verif:" + cs
+			}
+		}
+		g.yield(label)
+		return nil, true
+	}
 	if fn.Pkg != nil {
 		p := fn.Pkg.Pkg.Path()
 		if strings.HasPrefix(p, "github.com/cybergarage/go-logger/log") {
